@@ -28,7 +28,7 @@ fn request(c: usize, j: usize) -> Vec<Vec<u8>> {
 }
 
 fn scenario(pr: &Params) -> Verdict {
-    world::reset(world::WorldCfg { nested_env: true, yields: true, select: true, policy: pr.policy });
+    world::reset(world::WorldCfg { nested_env: true, yields: true, select: true, policy: pr.policy, coop: false });
     let reqs_per_client = 2usize;
     let clients: Vec<e3::RawConn> = (0..pr.clients).map(|c| e3::raw_conn(&format!("C{}", c))).collect();
     let workers: Vec<e3::RawConn> = (0..pr.workers).map(|w| e3::raw_conn(&format!("W{}", w))).collect();
